@@ -28,6 +28,55 @@ REDIRECT_CATEGORY = {"too_short": "too_short", "too_long": "too_long", "untrimme
 
 
 def generate(rng, tier):
+    case = _generate(rng, tier)
+    if rng.random() < 0.3:
+        # without --json the counts are taken from the text (or minimal) report: an accounting defect
+        # then has to show in the printed figures instead of tripping the JSON report's assertion
+        case["outs"] = [g for g in case["outs"] if g[0] != "--json"]
+    return case
+
+
+DESC2CAT = {
+    "that were too short": "too_short", "that were too long": "too_long", "with too many N": "too_many_n",
+    "with too many exp. errors": "too_many_expected_errors", "with too high error rate": "too_high_average_error_rate",
+    "failed CASAVA filter": "casava_filtered", "discarded as trimmed": "discard_trimmed",
+    "discarded as untrimmed": "discard_untrimmed",
+}
+
+
+def report_from_text(text, paired, minimal):
+    """A dict shaped like the JSON report, built from the printed report. -> (dict or None, source)"""
+    if minimal:
+        mr = parse_minimal_report(text)
+        if mr is None:
+            return None, "minimal"
+        f = {c: None for c in DESC2CAT.values()}
+        f.update(too_short=int(mr["too_short"]), too_long=int(mr["too_long"]), too_many_n=int(mr["too_many_n"]))
+        o2 = int(mr["out2_bp"]) if paired else None
+        return {"read_counts": {"input": int(mr["in_reads"]), "output": int(mr["out_reads"]), "filtered": f},
+                "basepair_counts": {"input": int(mr["in_bp"]), "input_read1": None, "input_read2": None,
+                                    "output": int(mr["out_bp"]) + (o2 or 0), "output_read1": int(mr["out_bp"]), "output_read2": o2}}, "minimal"
+    tr = parse_text_report(text)
+    if tr is None or tr["total"] is None:
+        return None, "text"
+    f = {c: None for c in DESC2CAT.values()}
+    for desc, v in tr["fates"].items():
+        if desc in DESC2CAT:
+            f[DESC2CAT[desc]] = v
+        else:
+            f["unknown:" + desc] = v
+    t = text[text.index("=== Summary ===") :]
+    m1 = re.search(r"Total basepairs processed:\s+[\d,]+ bp\n  Read 1:\s+([\d,]+) bp\n  Read 2:\s+([\d,]+) bp", t)
+    m2 = re.search(r"Total written \(filtered\):\s+[\d,]+ bp \([^)]*\)\n  Read 1:\s+([\d,]+) bp\n  Read 2:\s+([\d,]+) bp", t)
+    bc = {"input": tr["total_bp"], "output": tr["written_bp"],
+          "input_read1": _num(m1.group(1)) if m1 else (None if paired else tr["total_bp"]),
+          "input_read2": _num(m1.group(2)) if m1 else None,
+          "output_read1": _num(m2.group(1)) if m2 else (None if paired else tr["written_bp"]),
+          "output_read2": _num(m2.group(2)) if m2 else None}
+    return {"read_counts": {"input": tr["total"], "output": tr["written"], "filtered": f}, "basepair_counts": bc}, "text"
+
+
+def _generate(rng, tier):
     return gen.gen_case(rng, {
         "p_filters": 0.85, "p_redirect": 0.6, "p_untrimmed_opts": 0.6, "p_demux": 0.3, "p_combinatorial": 0.5,
         "p_minimal_report": 0.25, "p_info": 0.1, "p_rename": 0.1, "p_modifiers": 0.5,
@@ -73,8 +122,16 @@ def judge(case, res, name):
     n = len(case["records"])
     paired = case["paired"]
     j = C.load_json_report(res)
+    source = "json"
+    text_all = (res.stdout.decode("latin-1") if isinstance(res.stdout, bytes) else res.stdout) + "\n" + res.stderr
     if j is None:
-        return [C.V("json-missing", f"{name}: no JSON report")]
+        if any(g[0] == "--json" for g in case["outs"]):
+            return [C.V("json-missing", f"{name}: no JSON report")]
+        if n == 0:
+            return []  # "No reads processed!": nothing is printed
+        j, source = report_from_text(text_all, paired, any(g[0] == "--report" for g in case["outs"]))
+        if j is None:
+            return [C.V("text-report-missing", f"{name}: no report found")]
     rc, bc = j["read_counts"], j["basepair_counts"]
     dests = C.destinations(case)
     input_ids = {r[0] for r in case["records"]}
@@ -124,12 +181,12 @@ def judge(case, res, name):
         out.append(C.V("input-count", f"{name}: report input={rc['input']} but {n} records were given"))
     bp1 = sum(len(r[3]) for r in case["records"])
     bp2 = sum(len(r[5]) for r in case["records"]) if paired else 0
-    if bc["input_read1"] != bp1 or (paired and bc["input_read2"] != bp2) or bc["input"] != bp1 + bp2:
+    if (bc["input_read1"] is not None and bc["input_read1"] != bp1) or (paired and bc["input_read2"] is not None and bc["input_read2"] != bp2) or bc["input"] != bp1 + bp2:
         out.append(C.V("input-bp", f"{name}: report input bp {bc['input_read1']}/{bc['input_read2']} but input has {bp1}/{bp2}"))
     # clause 3
     if rc["output"] != sink_n:
         out.append(C.V("output-count", f"{name}: report output={rc['output']} but the final output files hold {sink_n} records"))
-    if bc["output_read1"] != sink_bp[0] or (paired and bc["output_read2"] != sink_bp[1]) or bc["output"] != sum(sink_bp):
+    if (bc["output_read1"] is not None and bc["output_read1"] != sink_bp[0]) or (paired and bc["output_read2"] is not None and bc["output_read2"] != sink_bp[1]) or bc["output"] != sum(sink_bp):
         out.append(C.V("output-bp", f"{name}: report output bp {bc['output_read1']}/{bc['output_read2']} but files hold {sink_bp}"))
     # clause 4
     filt = {k: (v or 0) for k, v in rc["filtered"].items()}
@@ -138,18 +195,23 @@ def judge(case, res, name):
         if role in per_role or any(d["role"] == role for d in dests):
             cnt = per_role.get(role, 0)
             redirected_total += cnt
+            if source == "minimal" and cat not in ("too_short", "too_long"):
+                continue  # the minimal report has no column for this category
             if filt.get(cat, 0) != cnt:
                 out.append(C.V("redirect-count", f"{name}: report says {cat}={filt.get(cat)} but its redirect file holds {cnt} records"))
     # clause 5
     total_f = sum(filt.values())
-    if rc["output"] + total_f != rc["input"]:
-        out.append(C.V("sum-json", f"{name}: JSON: output {rc['output']} + filtered {filt} != input {rc['input']}"))
+    sums_ok = source != "minimal" or not any(g[0] in ("--max-ee", "--max-aer", "--discard-casava", "--discard-trimmed", "--discard-untrimmed", "--untrimmed-output") or "{name" in (g[1] if len(g) > 1 else "") for g in case["opts"] + case["outs"])
+    if sums_ok and rc["output"] + total_f != rc["input"]:
+        out.append(C.V("sum-json" if source == "json" else "sum-text", f"{name}: {source} report: output {rc['output']} + filtered {filt} != input {rc['input']}"))
     in_no_file = n - len(seen)
-    if in_no_file != total_f - redirected_total:
+    if sums_ok and in_no_file != total_f - redirected_total:
         out.append(C.V("silent-loss", f"{name}: {in_no_file} input reads are in no output file but the categories without redirect file sum to {total_f - redirected_total} ({filt})"))
-    text = (res.stdout.decode("latin-1") if isinstance(res.stdout, bytes) else res.stdout) + "\n" + res.stderr
+    text = text_all
     minimal = any(g[0] == "--report" for g in case["outs"])
-    if minimal:
+    if source != "json":
+        pass
+    elif minimal:
         mr = parse_minimal_report(text)
         if mr is None:
             out.append(C.V("minimal-report-missing", f"{name}: minimal report not found"))
@@ -253,7 +315,7 @@ def evaluate(case, ctx):
     else:
         viols += [v for v in judge(case, par, "par")]
     n = len(case["records"])
-    if not viols and 0 < n <= 14 and case["knobs"]["sched_seed"] % 6 == 0:
+    if not viols and 0 < n <= 14 and case["knobs"]["sched_seed"] % 6 == 0 and any(g[0] == "--json" for g in case["outs"]):
         viols += sums_over_reads(case, ctx, ref)
     # the same defect usually shows in both runs: keep one violation per clause
     seen, uniq = set(), []
